@@ -316,7 +316,8 @@ class Register(_RegBase):
         return self.unchanged(old, st)[:1]
 
     def x_uri(self, E, old, st, a, exc):
-        return []
+        # an id that cannot be written into a uri (e.g. one containing whitespace) is refused BEFORE anything is registered
+        return self.unchanged(old, st)
 
 
 @R.contract
